@@ -534,6 +534,14 @@ fn drive(out: &mut Out, ctl: &Arc<Ctl>, dir: &str, idx: u64, cfg: &Config, n: us
             out.failures.push("C18\tflush() after a concurrent case did not return within the watchdog\t-".into());
         } else {
             let _ = j.join();
+            // every call has returned and the flush is acknowledged: the standing invariants of a store at rest
+            let mut found = feox_verif_harness::inv::quiescent(&store);
+            if !cfg.mem { found.extend(feox_verif_harness::inv::after_flush(&store, &path)); }
+            for f in found.iter().take(2) {
+                for p in f.props {
+                    out.failures.push(format!("{}\tafter the concurrent case (all calls returned, flush acknowledged): {}\t-", p, f.what));
+                }
+            }
         }
     }
     drop(store);
@@ -845,6 +853,58 @@ fn scan_case(rng: &mut Rng, out: &mut Out, ctl: &Arc<Ctl>, dir: &str, idx: u64) 
 
 /// unscheduled writers, readers and concurrent flush() callers on a small (filling) or failing
 /// device; every thread, the final flush and the drop must finish within the watchdog
+/// a device far too small for what is buffered: every shard's batch fits only in part (some
+/// records get their blocks, a later one of the same batch does not).  flush() must come back -
+/// with OutOfSpace - and so must a second flush, deletes that make room, a flush after them, and drop.
+fn overfull_case(rng: &mut Rng, out: &mut Out, dir: &str, idx: u64) {
+    feoxdb::verif::clock::unpin();
+    let blocks = rng.range(18, 26);
+    let path = format!("{}/overfull{}.feox", dir, idx);
+    let _ = std::fs::remove_file(&path);
+    let store = match FeoxStore::builder().hash_bits(8).enable_ttl(false).no_memory_limit()
+        .device_path(path.clone()).file_size(blocks * BS).enable_caching(false).build() {
+        Ok(s) => Arc::new(s),
+        Err(_) => return,
+    };
+    let n = rng.range(40, 240);
+    let keys: Vec<Vec<u8>> = (0..n).map(|i| format!("of{}-{:04}", idx, i).into_bytes()).collect();
+    for k in &keys { let _ = store.insert(k, &pattern(k[k.len() - 1], *rng.pick(&[60usize, 200, 3000]))); }
+    out.count("overfull device case");
+    let step = |what: &str, f: Box<dyn FnOnce() + Send>| -> bool {
+        let t0 = Instant::now();
+        let j = std::thread::spawn(f);
+        while !j.is_finished() && t0.elapsed() < WATCHDOG { std::thread::sleep(Duration::from_millis(1)); }
+        if j.is_finished() { let _ = j.join(); true } else { let _ = what; false }
+    };
+    let mut stuck: Option<&str> = None;
+    let st = store.clone();
+    if !step("flush", Box::new(move || { let _ = st.flush(); })) { stuck = Some("flush() with more buffered than the device can hold"); }
+    if stuck.is_none() {
+        let st = store.clone();
+        if !step("flush2", Box::new(move || { let _ = st.flush(); })) { stuck = Some("a second flush() on the full device"); }
+    }
+    if stuck.is_none() {
+        for k in keys.iter().skip(4) { let _ = store.delete(k); }
+        let st = store.clone();
+        if !step("flush3", Box::new(move || { let _ = st.flush(); })) { stuck = Some("flush() after deletes made room on the full device"); }
+    }
+    match stuck {
+        Some(what) => {
+            out.failures.push(format!("C18\toverfull device case {} ({} blocks, {} keys): {} did not return within {:?}\t-", idx, blocks, n, what, WATCHDOG));
+            std::mem::forget(store);
+        }
+        None => {
+            let td = Instant::now();
+            let dropper = std::thread::spawn(move || drop(store));
+            while !dropper.is_finished() && td.elapsed() < 3 * WATCHDOG { std::thread::sleep(Duration::from_millis(2)); }
+            if !dropper.is_finished() {
+                out.failures.push(format!("C18\toverfull device case {}: dropping the store did not finish within {:?}\t-", idx, 3 * WATCHDOG));
+            }
+        }
+    }
+    let _ = std::fs::remove_file(&path);
+}
+
 fn contend_case(rng: &mut Rng, out: &mut Out, wl: &Arc<WriteLog>, dir: &str, idx: u64) {
     use std::sync::atomic::Ordering as O;
     feoxdb::verif::clock::unpin();
@@ -1508,6 +1568,7 @@ fn main() {
         sweep_race_case(&mut rng, &mut out, &ctl, &args.out, i);
     }
     for i in 0..get("contend", 0) {
+        if i % 5 == 0 { overfull_case(&mut rng, &mut out, &args.out, i); }
         contend_case(&mut rng, &mut out, &wl, &args.out, i);
     }
     for _ in 0..get("inflight", 0) {
